@@ -264,6 +264,8 @@ class Env:
             v = self.vals.get((prov, name), self.vals.get(name, True))
             rec.value = v
             self.end(rec)
+            if isinstance(v, tuple) and v and v[0] == "raise":
+                raise make_boom(v[1])
             return v
         if role == "val":
             rec = self._mk(prov, name, "val", args, kwargs)
@@ -342,6 +344,8 @@ class Env:
             for i in range(points):
                 await self.point((prov, name, rec.n, i))
             self.end(rec)
+            if isinstance(v, tuple) and v and v[0] == "raise":
+                raise make_boom(v[1])
             return v
         if role == "val":
             rec = self._mk(prov, name, "val", args, kwargs)
